@@ -34,7 +34,7 @@ ASSUMPTIONS = [
 ]
 
 DEADLOCK_TEXT = "concurrent remote_exec would cause deadlock for main_thread_only execmodel"
-OUTCOMES = ["ret", "raise", "sysexit", "kbi", "block"]
+OUTCOMES = ["ret", "raise", "sysexit", "kbi", "block", "eof"]
 
 
 NAPS = [0.5, 1.0, 1.5]
@@ -57,6 +57,9 @@ def b_ops(k, outcome, nap=0.0):
         ops += [["raise", f"boom-{k}"]]
     elif outcome == "sysexit":
         ops += [["sysexit"]]
+    elif outcome == "eof":
+        # an EOFError leaving the body is swallowed by the worker ("receiving finished"); the call is over all the same
+        ops += [["raise_eof", f"eof-{k}"]]
     elif outcome == "kbi":
         ops += [["raise_kbi"]]
     else:
@@ -239,7 +242,7 @@ BLK_PATTERNS = [[0] * 10, [1] * 10, [2] * 10, [1, 0] * 5, [2, 1] * 5]
 SHAPES = [
     [["nap", 1, 1], ["ret", 0, 0]], [["nap", 2, 1], ["raise", 0, 0], ["ret", 0, 0]], [["block", 1, 0], ["ret", 0, 0]],
     [["raise", 0, 0], ["ret", 0, 0]], [["ret", 0, 0], ["ret", 0, 0]], [["kbi", 0, 0], ["block", 1, 0]],
-    [["sysexit", 0, 0], ["nap", 1, 0], ["ret", 0, 0]], [["nap", 1, 2], ["ret", 0, 0]],
+    [["sysexit", 0, 0], ["nap", 1, 0], ["ret", 0, 0]], [["nap", 1, 2], ["ret", 0, 0]], [["eof", 0, 0], ["ret", 0, 0]],
 ]
 
 
